@@ -21,6 +21,10 @@ def run(tier, seed, selftest=False, replay=None, pid=PID, families=FAMILIES):
         return selftest_run(files[0], pid)
     verdict = Verdict(pid)
     tc.add_violations(verdict, results, families)
+    scenes = (0, 0, None)
+    if not replay:
+        import ev_common
+        scenes = ev_common.run_scenes(pid, tier, verdict)
     rc = verdict.finish()
     info = sum(1 for p, j in results for x in j["viol"] if x[2].startswith("INFO."))
     events = sum(len(p["ev"]) for p, j in results)
@@ -31,7 +35,10 @@ def run(tier, seed, selftest=False, replay=None, pid=PID, families=FAMILIES):
                 "serialised structurally and walked by the HTyping stack machine in TLC, one state per AST event; every typed position / name-use "
                 "site is judged against the declarative relation; evaluations = walk events, distinct_nontrivial = programs" % (12 if tier == "quick" else 75),
         "samples": [{"program": sample["id"], "first_events": sample["ev"][:6], "classes": [k for k, v in sample["ct"].items() if v["kind"] != "builtin"][:6]}],
-        "programs": len(results), "clauses_judged": list(families), "informational": {"CondTypeNotUpperBound": info},
+        "programs": len(results), "clauses_judged": list(families),
+        "generator_scenes": {"scenes_executed": scenes[0], "events_judged": scenes[1], "sample": scenes[2],
+                             "rule": "TLC-enumerated symbol-table contents and requests (HGenScene) executed by a real Generator over a real Context; "
+                                     "the helper calls issued and the results are validated by HEvTrace (model_checking within that family)"}, "informational": {"CondTypeNotUpperBound": info},
         "states": sum(v.distinct for v in vals), "checker_cmd": "prog_exec.py ; tlc HTyping (SPECIFICATION Spec, CONSTRAINT Done)",
     }, time.time() - t0, len(verdict.violations),
         ["exploration over seeds; each program is checked at every position", "the reference semantics is one language-parametric relation; it cannot "
